@@ -55,6 +55,12 @@ def cases(tier, seed):
                         add('logdet', D=D, n=n, pivot=piv, rep=rep)
             for n in (1, 2, 3):
                 add('expm', D=D, n=n, rep=rep)
+        # a small base matrix with directions of ordinary size, followed to high order: choices taken from the size of the base
+        # point alone (approximation order, scaling) must be good for the derivatives too
+        for D in (7, 8):
+            for n in (2, 3):
+                for nb in (0.004, 0.012, 0.1):
+                    add('expm', D=D, n=n, rep=rep, base_norm=nb)
         # many directions (a Jacobian of a function of 40 variables is one sweep with P = 40)
         for Pw in (33, 40, 70):
             for kinds in ('UU', 'UA', 'AU'):
@@ -107,6 +113,22 @@ def run_case(ctx, case):
 
 
 def _call(ctx, mech, f, *a):
+    ut = [x for x in a if isinstance(x, UTPM) and x.data.size]
+    if ut and int(abs(float(np.real(ut[0].data.reshape(-1)[0]))) * 1e6) % 2:
+        # operands with a past: the same objects went through the same function with other higher-order coefficients (a curve
+        # through the same base point, re-seeded in place direction by direction) before they hold the data of this case
+        saved = [x.data.copy() for x in ut]
+        for x in ut:
+            if x.data.shape[0] > 1:
+                x.data[1:] = (x.data[1:] * (-0.5 if x.data.dtype.kind in 'fc' else -2)).astype(x.data.dtype)
+            else:
+                x.data[...] = (x.data * (1.25 if x.data.dtype.kind in 'fc' else 2)).astype(x.data.dtype)
+        try:
+            f(*a)
+        except Exception:
+            pass
+        for x, sv in zip(ut, saved):
+            x.data[...] = sv
     try:
         return True, f(*a)
     except Exception as e:
@@ -365,6 +387,8 @@ def _expm(ctx, p, rng):
     for d in range(D):
         for pp in range(P):
             a[d, pp] *= 0.3 / max(np.linalg.norm(a[d, pp], 1), 1e-12) * rng.uniform(0.2, 1.0)
+            if p.get('base_norm'):
+                a[d, pp] *= (p['base_norm'] if d == 0 else 0.5) / np.linalg.norm(a[d, pp], 1)
     ok, r = _call(ctx, 'expm', algopy.expm, UTPM(gen.relayout(a, gen.LAYOUTS[int(rng.integers(5))])))
     if not ok:
         ctx.violation('expm:raises:' + type(r).__name__, {'n': n, 'D': D, 'P': P, 'error': repr(r)[:200]}); return
